@@ -255,9 +255,9 @@ func init() {
 	vfXModels["c10n"] = &vfXModel{Name: "c10n", NumOps: len(vfNtOps), OpName: func(i int) string { return vfNtOps[i].Name },
 		Exec: vfNtExec, MaxDepth: func(th bool) int {
 			if th {
-				return 4
+				return 7
 			}
-			return 3
+			return 4
 		}}
 }
 
